@@ -64,7 +64,7 @@ Definition last_val (n : str) (l : list (str * str)) : option str :=
 Fixpoint first_occ (seen l : list str) : list str :=
   match l with
   | [] => []
-  | x :: r => if existsb (str_eqb x) seen then first_occ seen r else x :: first_occ (x :: seen) r
+  | x :: r => if existsb (str_eqb x) seen then first_occ seen r else x :: first_occ (seen ++ [x]) r
   end.
 Definition label_value (g kl : list (str * str)) (n : str) : str :=
   match last_val n kl with
@@ -135,8 +135,14 @@ Definition labels_ok (c : cfg) (k : key) : bool :=
 (* families: counters / gauges (both sorts) / distributions live in three separate maps *)
 Definition fclass (k : mkind) : N := match k with KC => 0 | KG | KR => 1 | KH => 2 end.
 (* two different table entries never denote the same series, nor the same name in two kinds *)
+(* metrics::Key equality ignores the order of the labels (C03): such entries are ONE key *)
+Definition label_eqb (a b : str * str) : bool := str_eqb (fst a) (fst b) && str_eqb (snd a) (snd b).
+Definition count_label (x : str * str) (l : list (str * str)) : nat := List.length (filter (label_eqb x) l).
+Definition same_key (a b : key) : bool :=
+  str_eqb (k_name a) (k_name b) && Nat.eqb (List.length (k_labels a)) (List.length (k_labels b))
+  && forallb (fun x => Nat.eqb (count_label x (k_labels a)) (count_label x (k_labels b))) (k_labels a).
 Definition keys_apart (c : cfg) (a b : key) : bool :=
-  if fclass (k_kind a) =? fclass (k_kind b) then negb (parts_eqb (parts c a) (parts c b))
+  if fclass (k_kind a) =? fclass (k_kind b) then negb (parts_eqb (parts c a) (parts c b)) && negb (same_key a b)
   else negb (str_eqb (sname a) (sname b)).
 Fixpoint pairwise {A} (f : A -> A -> bool) (l : list A) : bool :=
   match l with [] => true | x :: r => forallb (f x) r && pairwise f r end.
